@@ -244,6 +244,31 @@ def nilpotent_reqs(rng, tier):
                         reqs.append("C05 u.plain_modpow %s %s %s" % (wu(b), wu(e), wu(m)))
     return reqs
 
+def long_exponent_reqs(rng, tier):
+    """exponents at the sizes where implementations switch strategy (window width chosen from the exponent's bit
+    length: 64·k bits ± 1 for k = 1…40, in particular 512/1024/2048/4096-bit cryptographic sizes ± 1), against small
+    odd and even moduli (cheap), through modpow of both types and the two internal routines (C05-u1: a 5-bit window for
+    exponents above 2048 bits whose digit scan assumes the width divides 64)."""
+    reqs = []
+    bitlens = [63, 64, 65, 127, 128, 129, 255, 256, 257, 511, 512, 513, 1023, 1024, 1025, 2047, 2048, 2049, 2050, 2112, 2560]
+    if tier == "thorough":
+        bitlens += [3071, 3072, 3073, 4095, 4096, 4097, 8192, 8193]
+    mods = [1000003, (1 << 61) - 1, (1 << 64) - 59, (1 << 64) + 13, val([rng.randrange(B) | 1, rng.randrange(1, B)]), 1000000, 1 << 64,
+            val([rng.randrange(B) & ~1, rng.randrange(1, B)]), val([rng.randrange(B) | 1 for _ in range(5)])]
+    for L in bitlens:
+        es = [(1 << (L - 1)) | rng.randrange(1 << (L - 1)), (1 << L) - 1, 1 << (L - 1), (1 << (L - 1)) | 1]
+        for e in (es if tier == "thorough" else rng.sample(es, 2)):
+            for m in (mods if tier == "thorough" else rng.sample(mods, 3)):
+                b = rng.choice([2, 3, rng.randrange(2, m), m - 1, m + 2])
+                reqs.append("C05 u.modpow %s %s %s" % (wu(b), wu(e), wu(m)))
+                if rng.randrange(3) == 0:
+                    reqs.append("C05 i.modpow %s %s %s" % (wi(-b), wi(e), wi(rng.choice([1, -1]) * m)))
+                if m % 2 == 1 and m > 1 and rng.randrange(2) == 0:
+                    reqs.append("C05 u.monty_modpow %s %s %s" % (wu(b % m), wu(e), wu(m)))
+                if m % 2 == 0 and rng.randrange(2) == 0:
+                    reqs.append("C05 u.plain_modpow %s %s %s" % (wu(b), wu(e), wu(m)))
+    return reqs
+
 def gen(rng, tier):
     reqs = []
     thorough = tier == "thorough"
@@ -301,6 +326,7 @@ def gen(rng, tier):
     reqs += modinv_reqs(rng, tier)
     reqs += layer_reqs(rng, tier)
     reqs += nilpotent_reqs(rng, tier)
+    reqs += long_exponent_reqs(rng, tier)
     # inv_mod_alt
     for b in [1, 3, 5, 7, MAX, MAX - 2, (1 << 63) + 1, (1 << 32) + 1, (1 << 32) - 1, (1 << 63) - 1, 0x5555555555555555]:
         reqs.append("C05 raw.inv_mod_alt %x" % b)
